@@ -1,6 +1,8 @@
 import Driver.Hex
 import Goirc.Model.Split
 import Goirc.Spec.Split
+import Goirc.Model.Commands
+import Goirc.Spec.Wire
 /-!
 # Line-protocol oracle: one request per line on stdin, one reply per line on stdout.
 
@@ -11,8 +13,61 @@ open Driver Go
 
 def boolStr (b : Bool) : String := if b then "1" else "0"
 
+/-- parse a command-method call: method name followed by its arguments (hex / list) -/
+def parseCmd (m : String) (args : List String) : Option Cmd :=
+  let b := hexDecode
+  let l := listDecode
+  match m, args with
+  | "Raw", [a] => do pure (.raw (← b a))
+  | "Pass", [a] => do pure (.pass (← b a))
+  | "Nick", [a] => do pure (.nick (← b a))
+  | "User", [a, c] => do pure (.user (← b a) (← b c))
+  | "Join", [a, k] => do pure (.join (← b a) (← l k))
+  | "Part", [a, k] => do pure (.part (← b a) (← l k))
+  | "Kick", [a, n, k] => do pure (.kick (← b a) (← b n) (← l k))
+  | "Quit", [k] => do pure (.quit (← l k))
+  | "Whois", [a] => do pure (.whois (← b a))
+  | "Who", [a] => do pure (.who (← b a))
+  | "Privmsg", [a, c] => do pure (.privmsg (← b a) (← b c))
+  | "Notice", [a, c] => do pure (.notice (← b a) (← b c))
+  | "Ctcp", [a, c, k] => do pure (.ctcp (← b a) (← b c) (← l k))
+  | "CtcpReply", [a, c, k] => do pure (.ctcpReply (← b a) (← b c) (← l k))
+  | "Version", [a] => do pure (.version (← b a))
+  | "Action", [a, c] => do pure (.action (← b a) (← b c))
+  | "Topic", [a, k] => do pure (.topic (← b a) (← l k))
+  | "Mode", [a, k] => do pure (.mode (← b a) (← l k))
+  | "Away", [k] => do pure (.away (← l k))
+  | "Invite", [a, c] => do pure (.invite (← b a) (← b c))
+  | "Oper", [a, c] => do pure (.oper (← b a) (← b c))
+  | "VHost", [a, c] => do pure (.vhost (← b a) (← b c))
+  | "Ping", [a] => do pure (.ping (← b a))
+  | "Pong", [a] => do pure (.pong (← b a))
+  | "Cap", [a, k] => do pure (.cap (← b a) (← l k))
+  | "Authenticate", [a] => do pure (.authenticate (← b a))
+  | _, _ => none
+
 def handle (words : List String) : String :=
   match words with
+  | "cmd" :: n :: q :: up :: m :: args =>
+    match n.toInt?, hexDecode q, hexDecode up, parseCmd m args with
+    | some n, some q, some up, some c => listEncode (exec ⟨fun _ => up, fun x => x⟩ ⟨n, q⟩ c)
+    | _, _, _, _ => "bad-op"
+  | "spec08" :: lines :: m :: args =>
+    match listDecode lines, parseCmd m args with
+    | some ls, some c => if Spec.Wire.ok (verbOf c) ls then "ok" else "fail"
+    | _, _ => "bad-op"
+  | "spec08b" :: wire :: m :: args =>
+    match hexDecode wire, parseCmd m args with
+    | some w, some c => if Spec.Wire.bytesOk (verbOf c) w then "ok" else "fail"
+    | _, _ => "bad-op"
+  | ["cut", t] =>
+    match hexDecode t with
+    | some t => hexEncode (cutNewLines t)
+    | none => "bad-op"
+  | ["splitargs", n, l] =>
+    match n.toInt?, listDecode l with
+    | some n, some l => listEncode (splitArgs l n)
+    | _, _ => "bad-op"
   | ["split", n, t] =>
     match n.toInt?, hexDecode t with
     | some n, some t => listEncode (splitMessage t n)
